@@ -88,6 +88,11 @@ def enumerate_cases(tier, shard, nshards, seed):
     yield from em.single_edit_grid(progs, tier, shard, nshards, seed, n_expr=3, thin=thin, remove_optsets=em.GRID_OPTSETS, cut=True)
     yield from em.slice_edit_grid(progs, tier, shard, nshards, seed, thin=thin, only_ops=('insert',))
 
+    # insertions into expression-level containers (displays, calls, names, patterns ...) of the commented container templates
+    from . import c03
+
+    yield from em.slice_edit_grid(c03.GRID_TEMPLATES, tier, shard, nshards, seed, thin=thin, only_ops=('insert',), optsets=({}, {'trivia': False}))
+
     # two-step histories with warm caches: a line comment put (setup) followed by the removal / cut of an enclosing statement
     for case in em.ancestor_two_step_grid(gen.TRIVIA_PROGRAMS, tier, shard, nshards, seed, thin=thin):
         if case['steps'][1]['op'] in ('remove', 'cut'):
@@ -570,6 +575,123 @@ COMMA_FIRST = re.compile(r'(?m)^[ \t]*,')
 LONE_CONT = re.compile(r'(?m)^[ \t]*\\$|\\\n[ \t]*#')  # lone continuation line, or continuation directly followed by a comment line
 
 
+PURE_INSERTS = ('insert', 'append', 'prepend', 'extend', 'prextend')
+
+
+def check_expr_insertion(root, step, parent, field, n, old, ctx) -> bool:
+    """Reduced clause for an insertion into a non-statement container (elements of a display, call arguments, names, patterns, ...): nothing is
+    removed by an insertion, so every comment of the old source is still there, and the old content tokens (names, numbers, strings, comments)
+    are, in order, a subsequence of the new ones. -> False when the sequence cannot go on."""
+
+    try:
+        ap = em.apply_step(root, step, c01.BASE_OPTS)
+    except em.StepSkipped as s:
+        ctx.count(f'step_skipped:{s.reason}')
+
+        return True
+
+    if ap.raised:
+        ctx.count('steps_raised')
+
+        return root.src == old
+
+    new = root.src
+
+    if new == old:
+        return True
+
+    try:
+        otoks, ntoks = K_pos(old), K_pos(new)
+    except Exception:
+        return False
+
+    site = f'{ap.op}:{ap.parent_cls}.{ap.field}'
+    ctx.count('expr_insertions_checked(reduced clause)')
+    ocom = Counter(t[1] for t in otoks if t[0] == tokenize.COMMENT)
+    ncom = Counter(t[1] for t in ntoks if t[0] == tokenize.COMMENT)
+
+    selected = Counter()
+
+    if ocom - ncom:
+        lost = ocom - ncom
+        elems = [e for e in getattr(parent, field)]
+
+        if field == 'keys' and getattr(parent, 'values', None):
+            elems = [v if k is None else k for k, v in zip(elems, parent.values)]
+            tails = list(parent.values)
+        else:
+            tails = elems
+
+        def first_line(e):
+            return min((x.lineno for x in ast.walk(e) if hasattr(x, 'lineno')), default=None) if isinstance(e, ast.AST) else None
+
+        def last_line(e):
+            return max((x.end_lineno for x in ast.walk(e) if hasattr(x, 'end_lineno')), default=None) if isinstance(e, ast.AST) else None
+
+        start = step.get('start', 0)
+        pos = n if step['op'] in ('append', 'extend') or start == 7 else 0 if step['op'] in ('prepend', 'prextend') else max(0, min(n, start + n if start < 0 else start))
+        prev_end = last_line(tails[pos - 1]) if pos > 0 else None
+        next_start = first_line(elems[pos]) if pos < n else None
+        olines = old.split('\n')
+        kinds = set()
+        leading_selected = trivia_split(ap.opts.get('trivia', True))[0] != 'none'
+
+        for t in otoks:
+            if t[0] != tokenize.COMMENT or t[1] not in lost:
+                continue
+
+            ln = t[2][0] + 1
+            own = olines[ln - 1].lstrip().startswith('#')
+
+            if own and (prev_end is None or ln > prev_end) and (next_start is None or ln < next_start):
+                if leading_selected:
+                    selected[t[1]] += 1  # the comment block directly before the insertion point is what the (default) trivia option selects for overwriting (docs d06)
+                else:
+                    kinds.add('own_line_comment_before_insertion_point')
+            elif not own and prev_end is not None and ln == prev_end:
+                kinds.add('line_comment_of_last_element_on_append' if pos == n else 'line_comment_of_previous_element')
+            else:
+                kinds.add('elsewhere')
+
+        if selected:
+            ctx.count('comment_block_before_insertion_point_overwritten(selected by trivia option)')
+
+        if kinds:
+            where = '+'.join(sorted(kinds))
+
+            raise Violation('C04.comment_lost', f'{ap.desc}: insertion at index {pos} of {ap.parent_cls}.{ap.field} lost comment(s) {dict(lost)} ({where})\n--- old ---\n{old[:800]}\n--- new ---\n{new[:800]}',
+                            f'lost_insert_expr:{where}:{site}')
+
+    content = (tokenize.NAME, tokenize.NUMBER, tokenize.STRING, tokenize.COMMENT)
+    oc = []
+
+    for t in otoks:
+        if t[0] in content:
+            if t[0] == tokenize.COMMENT and selected[t[1]] > 0:
+                selected[t[1]] -= 1
+            else:
+                oc.append(t[1])
+
+    it = iter(t[1] for t in ntoks if t[0] in content)
+
+    for k, tok in enumerate(oc):
+        if not any(x == tok for x in it):
+            raise Violation('C04.insertion_disturbs', f'{ap.desc}: old content token #{k} {tok!r} is no longer at its place in the order of tokens\n--- old ---\n{old[:800]}\n--- new ---\n{new[:800]}',
+                            f'order_insert_expr:{site}')
+
+    if ocom:
+        ctx.mark_nontrivial([old, step], {'src_before_edit': old[:300], 'edit': ap.desc} if len(old) % 37 == 0 else None)
+
+    try:
+        c01.check_invariant(root, ap, 'C04.pre')
+    except Violation:
+        ctx.count('c01_violation(reported by C01)')
+
+        return False
+
+    return True
+
+
 def execute(case, ctx):
     if (why := c01.excluded(case['src'])) and not case.get('no_exclude'):
         raise Skip(f'excluded_known_finding:{why}')
@@ -632,6 +754,12 @@ def execute(case, ctx):
             parent, field, n = refc[k]
 
             if field.startswith('_') or em.slice_kind(parent, field) != 'stmts' or not n:
+                if step['op'] in PURE_INSERTS and n and not isinstance(parent, (ast.JoinedStr, ast.FormattedValue)):
+                    if not check_expr_insertion(root, step, parent, field, n, old, ctx):
+                        return
+
+                    continue
+
                 ctx.count('skipped:insert_non_stmt_container')
 
                 continue
